@@ -200,7 +200,13 @@ std::string opGenGame(const std::vector<std::string>& a) {
         while (r >= wt[j]) { r -= wt[j]; j++; }
         const Move& m = ml[idx[j]];
         out.push_back(TextIO::moveToUCIString(m));
+        const bool playedEp = (pos.getPiece(m.from()) == Piece::WPAWN || pos.getPiece(m.from()) == Piece::BPAWN) &&
+                              pos.getEpSquare().isValid() && m.to() == pos.getEpSquare();
         UndoInfo ui; pos.makeMove(m, ui);
+        if ((style & 64) && playedEp) {                        // end the game with the en-passant capture
+            TextIO::fixupEPSquare(pos);
+            break;
+        }
         TextIO::fixupEPSquare(pos);
         if ((style & 4) && pos.getEpSquare().isValid() && 3 * i >= plies)   // end the game in a position with an e.p. right
             break;
